@@ -130,7 +130,10 @@ def run_obligations(prop, tier, plan):
     workers = max(1, min(int(plan.get("workers", 6)), len(kids)))
     threads = max(2, 16 // workers)
     try:
-        with cf.ProcessPoolExecutor(workers, initializer=_init_worker, initargs=(pk, feats)) as ex:
+        import multiprocessing
+        # spawn (not fork): the driver runs Kani groups in other threads at the same time
+        with cf.ProcessPoolExecutor(workers, mp_context=multiprocessing.get_context("spawn"),
+                                    initializer=_init_worker, initargs=(pk, feats)) as ex:
             for rec in ex.map(_run_kernel, [(k, prop, seed(), threads) for k in kids]):
                 out["obligations"].append(rec)
                 out["traces_validated"] += rec.get("validated", 0)
